@@ -8,7 +8,7 @@
    arbitrary hash function [kec], either registry flavour [cfg], every configured address
    [reg] and every account [addr]. *)
 From Coq Require Import String List NArith ZArith Bool.
-From MevVerif Require Import lib.Bytes lib.Abi model.Registry check.Check_C11 proofs.Abi_proofs proofs.Registry_proofs.
+From MevVerif Require Import lib.Bytes lib.Abi gen.Generated model.Registry check.Check_C11 proofs.Abi_proofs proofs.Registry_proofs.
 Import ListNotations.
 Open Scope N_scope.
 
@@ -94,7 +94,24 @@ Theorem C11_value : forall kec cfg reg amount s w,
 Proof. exact register_value. Qed.
 Print Assumptions C11_value.
 
-(* The methods are the ones found in /repo by the extractor (gen/Generated.v): *)
+(* The method names of the model are the ones found in /repo by the extractor
+   (gen/Generated.v: the first argument of the one Pack -- and the one Unpack -- call in each of
+   the three methods of each package): *)
+Theorem C11_methods_extracted :
+  Generated.c11_prov_register_pack = [r_register provider_registry] /\
+  Generated.c11_prov_min_pack = [r_min provider_registry] /\
+  Generated.c11_prov_min_unpack = [r_min_unpack provider_registry] /\
+  Generated.c11_prov_stake_pack = [r_stake provider_registry] /\
+  Generated.c11_prov_stake_unpack = [r_stake_unpack provider_registry] /\
+  Generated.c11_bid_register_pack = [r_register bidder_registry] /\
+  Generated.c11_bid_min_pack = [r_min bidder_registry] /\
+  Generated.c11_bid_min_unpack = [r_min_unpack bidder_registry] /\
+  Generated.c11_bid_stake_pack = [r_stake bidder_registry] /\
+  Generated.c11_bid_stake_unpack = [r_stake_unpack bidder_registry].
+Proof. exact extracted_call_sites. Qed.
+Print Assumptions C11_methods_extracted.
+
+(* and the signatures they give are: *)
 Theorem C11_methods :
   (method_sig (r_register provider_registry) [] = bos "registerAndStake()" /\
    method_sig (r_min provider_registry) [] = bos "minStake()" /\
@@ -198,6 +215,19 @@ Theorem C11_check_history_independent : forall kec cfg reg qs qs' n addr a_min a
   nth_error (session kec cfg reg qs) n = nth_error (session kec cfg reg qs') n.
 Proof. exact session_check_independent. Qed.
 Print Assumptions C11_check_history_independent.
+
+(* Stake / prepay calls on one object likewise: each sends exactly its own amount (first
+   request, the only Send) and reports success from its own send result and receipt. *)
+Theorem C11_register_stateless : forall kec cfg reg qs n amount s w,
+  nth_error qs n = Some (QRegister amount s w) ->
+  let want := {| tx_to := reg; tx_value := amount;
+                 tx_data := selector kec (method_sig (r_register cfg) []); tx_gas := false |} in
+  exists t o,
+    nth_error (session kec cfg reg qs) n = Some (t, AReg o) /\
+    sends t = [want] /\ hd_error t = Some (ESend want) /\
+    (o = Ok tt <-> exists h, s = SHash h /\ w = WReceipt 1).
+Proof. exact session_register_stateless. Qed.
+Print Assumptions C11_register_stateless.
 
 (* The getters likewise: each call makes its one request and returns what that answer decodes to. *)
 Theorem C11_getters_stateless : forall kec cfg reg qs n,
